@@ -63,6 +63,10 @@ class IpReach:
         # octet = int(math.ceil(plength / 8))
         octet = len(data[1:])
 
+        if code == PROTOCOL_ID_IPV6 and octet > 16:
+            # more prefix octets than an IPv6 address has: the text built from them below is no address
+            raise Notify(3, 10, f'BGP-LS ip reachability sub-tlv: {octet} prefix octets for an IPv6 prefix')
+
         if code == PROTOCOL_ID_IPV6:
             # IPv6
             if len(data[1 : octet + 1]) % 2 == 1:
